@@ -27,6 +27,7 @@ package crypto
 import (
 	"fmt"
 	"sync"
+	"sync/atomic"
 	"testing"
 
 	"github.com/algorand/go-algorand/logging"
@@ -35,6 +36,9 @@ import (
 
 var vC36MsgA = TestingHashable{data: []byte("verif-c36-message-A")}
 var vC36MsgB = TestingHashable{data: []byte("verif-c36-message-B")}
+
+// number of Sign-then-Verify probes and of operations really executed (shared prefixes once)
+var vC36Probes, vC36Ops, vC36Valid int64
 
 type vC36Op struct {
 	reload bool
@@ -81,6 +85,10 @@ func vC36Obs(s *OneTimeSignatureSecrets, cfg *vC36Cfg) []interface{} {
 				}
 			}
 			codes = append(codes, code)
+			atomic.AddInt64(&vC36Probes, 1)
+			if code == 1 {
+				atomic.AddInt64(&vC36Valid, 1)
+			}
 		}
 	}
 	return vL(s.FirstBatch, s.Batches == nil, len(s.Batches), s.FirstOffset, len(s.Offsets), codes)
@@ -104,6 +112,7 @@ func vC36Reload(s *OneTimeSignatureSecrets) *OneTimeSignatureSecrets {
 }
 
 func vC36Apply(s *OneTimeSignatureSecrets, op vC36Op, cfg *vC36Cfg) (*OneTimeSignatureSecrets, []interface{}) {
+	atomic.AddInt64(&vC36Ops, 1)
 	if op.reload {
 		s2 := vC36Reload(s)
 		return s2, vL(vSym("reload"), vC36Obs(s2, cfg))
@@ -118,7 +127,6 @@ type vC36Sink struct {
 	out   *vOut
 	nseq  int
 	nops  int
-	nprob int
 	kinds map[string]int
 }
 
@@ -128,7 +136,6 @@ func (k *vC36Sink) emit(cfg *vC36Cfg, obs0 []interface{}, steps []interface{}, k
 	k.out.Line(line)
 	k.nseq++
 	k.nops += len(steps)
-	k.nprob += (len(steps) + 1) * len(cfg.ub) * len(cfg.uo)
 	k.kinds[kind]++
 	k.mu.Unlock()
 }
@@ -323,7 +330,8 @@ func TestVerifC36(t *testing.T) {
 	close(ch)
 	wg.Wait()
 	vStats(map[string]interface{}{
-		"sequences": sink.nseq, "operations": sink.nops, "probes_sign_then_verify": sink.nprob,
+		"sequences": sink.nseq, "operations_in_sequences": sink.nops, "operations_executed": vC36Ops,
+		"probes_sign_then_verify_executed": vC36Probes, "probes_valid": vC36Valid,
 		"kinds": sink.kinds, "exhaustive_depth": depth,
 	})
 }
